@@ -22,7 +22,9 @@
 (*                      with ignore_lattice=None ("dict": the lattice      *)
 (*                      travels iff it is cached) or with the default      *)
 (*                      ignore_lattice=False ("force": computing the       *)
-(*                      export caches it in h as well).  C04 counts as a   *)
+(*                      export caches it in h as well); "json" / "literal"  *)
+(*                      / "table" / "cxt" / "csv": written and re-read in  *)
+(*                      that format.  C04 counts as a                      *)
 (*                      lattice family: its calls compare the generators   *)
 (*                      with context.lattice                               *)
 (*   SDrop(h)           the last reference goes away                       *)
@@ -47,7 +49,7 @@ svars == <<hs, slast, shist>>
 PureFams == {"C01", "C02", "C16"}
 LazyFams == {"C02L", "C03", "C04", "C05", "C06", "C07", "C08", "C09", "C10", "C18", "C20"}
 Fams == PureFams \cup LazyFams
-Hows == {"copy", "pickle", "definition", "dict", "force"}
+Hows == {"copy", "pickle", "definition", "dict", "force", "json", "literal", "table", "cxt", "csv"}
 
 Free == [st |-> "free"]
 Handle(t, lat) == [st |-> "live", t |-> t, lat |-> lat]
@@ -67,9 +69,11 @@ Step(S, a) ==
       [] a.a = "fail"   -> [S EXCEPT ![a.h].lat = @ \/ a.lazy]
       [] a.a = "derive" ->
             LET src == S[a.h]
-                travels == CASE a.how = "dict"  -> src.lat       \* todict(): the lattice is included iff cached
-                             [] a.how = "force" -> TRUE          \* todict(ignore_lattice=False)
-                             [] OTHER -> FALSE                   \* copy / pickle / definition: never
+                travels == CASE a.how \in {"dict", "json", "literal"} -> src.lat
+                                  \* todict / tojson with ignore_lattice=None, the python-literal text: the
+                                  \* lattice is included iff it is cached
+                             [] a.how = "force" -> TRUE          \* todict() - the default is ignore_lattice=False
+                             [] OTHER -> FALSE                   \* copy / pickle / definition / table, cxt, csv text
             IN  [S EXCEPT ![a.g] = Handle(src.t, travels),
                           ![a.h].lat = @ \/ (a.how = "force")]
       [] a.a = "drop"   -> [S EXCEPT ![a.h] = Free]
